@@ -574,7 +574,7 @@ fn main() {
     let check = Check::new("C44", "exploration");
     check.rule("1-4 events per case, each {x, y: JSON values of depth<=4, 0-2 extra ignored fields with odd names}; ints from i64 boundaries/2^53+-1/random i64, floats from boundary pool/random bit patterns rendered in 6 literal styles (shortest, e/E/e+ exponents, 17 and 21 digits), strings with NUL/control/BMP/astral chars in 4 escape styles, odd object keys; sent as raw JSON text to /events or /events-batch of a pipeline `E.emit(v: x, t: type_of(x), w: y)` (expression emit) and `G.emit(v: x, w: y)` (plain field emit); response decoded by an own JSON reader; oracle: v == x (exact number value + int/float kind, string contents, unordered objects), t == type name; non-trivial = nested value or boundary number");
     check.assume("Rust's str::parse::<f64>/<i128> and float formatting are exact (used for the model side)");
-    check.explore("rest_roundtrip", || case_strategy(true), 15_000, 300_000, |c: &Case| {
+    check.explore("rest_roundtrip", || case_strategy(true), 10_000, 300_000, |c: &Case| {
         // known finding (integers above i64::MAX become floats): that class is clamped out of
         // the main search and exercised by the sub-check below
         let mut c = c.clone();
